@@ -61,20 +61,34 @@ def slice (b : ByteArray) (i j : Nat) : Bytes := (b.extract i j).toList
 def isNatTok (t : Bytes) : Bool := !t.isEmpty && t.all isDigit
 def natOf (t : Bytes) : Nat := t.foldl (fun a c => a * 10 + (c.toNat - 48)) 0
 
-def isNumTok (t : Bytes) : Bool :=
-  let t1 := match t with
-    | 0x2B :: r => r
-    | 0x2D :: r => r
-    | t => t
-  !t1.isEmpty && t1.all (fun c => isDigit c || c == 0x2E) && (t1.filter (· == 0x2E)).length ≤ 1 && t1.any isDigit
-
-def startsAt (b : ByteArray) (i : Nat) (s : Bytes) : Bool := slice b i (i + s.length) == s
-
 def hexVal (c : UInt8) : Option Nat :=
   if 0x30 ≤ c && c ≤ 0x39 then some (c.toNat - 0x30)
   else if 0x41 ≤ c && c ≤ 0x46 then some (c.toNat - 0x41 + 10)
   else if 0x61 ≤ c && c ≤ 0x66 then some (c.toNat - 0x61 + 10)
   else none
+
+def stripSign : Bytes → Bytes
+  | [] => []
+  | c :: r => if c == 0x2B || c == 0x2D then r else c :: r
+
+def numBody (t1 : Bytes) : Bool :=
+  !t1.isEmpty && t1.all (fun c => isDigit c || c == 0x2E) && (t1.filter (· == 0x2E)).length ≤ 1 && t1.any isDigit
+
+/-- PDF number syntax (7.3.3): optional sign, digits with at most one point, at least one digit -/
+def isNumTok (t : Bytes) : Bool := numBody (stripSign t)
+
+/-- name objects (7.3.5): `#xx` with two hexadecimal digits stands for the byte xx -/
+def unescName : Bytes → Bytes
+  | c :: h1 :: h2 :: r2 =>
+    if c == 0x23 then
+      match hexVal h1, hexVal h2 with
+      | some a, some b => (a * 16 + b).toUInt8 :: unescName r2
+      | _, _ => c :: unescName (h1 :: h2 :: r2)
+    else c :: unescName (h1 :: h2 :: r2)
+  | c :: r => c :: unescName r
+  | [] => []
+
+def startsAt (b : ByteArray) (i : Nat) (s : Bytes) : Bool := slice b i (i + s.length) == s
 
 def hexPairs : List Nat → Bytes
   | a :: b :: r => (a * 16 + b).toUInt8 :: hexPairs r
@@ -90,7 +104,7 @@ def parseObj (b : ByteArray) (refs : Bool) : Nat → Nat → Option (PV × Nat)
     let c := at' b i
     if c == 0x2F then
       let j := regEnd b (b.size - i) (i + 1)
-      some (.name (slice b (i + 1) j), j)
+      some (.name (unescName (slice b (i + 1) j)), j)
     else if c == 0x28 then
       let rest := slice b (i + 1) b.size
       match readLit 0 rest with
